@@ -895,6 +895,18 @@ def run_c12(job):
         stream = b''.join(s + p for s, p in zip(seps, parts)) + seps[-1]
         expected = [chosen[i][1] for i in range(k) if i not in dmg_set]
         t.case('B.stream', (kind, tuple(dmg_set), k), sample={'damage': kind, 'damaged': dmg_set, 'messages': k})
+        # the same stream through a decoder object that has a history of every public decoding mode (lenient, metadata-only, a failed decode):
+        # damage must be detected by ANY decoder object, not only by a new one
+        used = Decoder()
+        safe(used.process, chosen[0][1], '<s>', b'BUFR', False, True)
+        safe(used.process, chosen[0][1], '<s>', b'BUFR', True, False)
+        safe(used.process, chosen[0][1][: len(chosen[0][1]) // 2])
+        r = safe(lambda: [mm.serialized_bytes for mm in generate_bufr_message(used, stream, continue_on_error=True)])
+        t.case('B.stream.used-decoder', (kind, tuple(dmg_set), k))
+        if r[0] != 'ok' or r[1] != expected:
+            t.violation('C12', 'continue_on_error through a decoder used before in lenient / metadata-only mode: %s damage in message(s) %r of %d: %s, '
+                        'expected the %d undamaged ones unchanged' % (kind, dmg_set, k, ('delivered %d messages' % len(r[1])) if r[0] == 'ok' else type(r[1]).__name__,
+                                                                      len(expected)), {'stream': stream.hex()}, key='C12.stream.used-decoder|%s' % kind.rstrip('+-'))
         r = safe(lambda: [mm.serialized_bytes for mm in generate_bufr_message(Decoder(), stream, continue_on_error=True)])
         if r[0] != 'ok':
             t.violation('C12', 'continue_on_error: %s damage in message(s) %r of %d aborts the stream with %s' % (kind, dmg_set, k, type(r[1]).__name__),
